@@ -11,6 +11,7 @@ import PdfVerif.Lemmas.FiltersPred
 import PdfVerif.Lemmas.FiltersCodec
 import PdfVerif.Lemmas.FiltersChain
 import PdfVerif.Lemmas.FiltersA85
+import PdfVerif.Lemmas.FiltersLzw
 
 namespace PdfVerif.Props.C03
 open PdfVerif PdfVerif.Filters PdfVerif.FilterEnc PdfVerif.Gen.Filters
@@ -149,6 +150,23 @@ theorem a85_body_rt (cs : List Nat) (x : Bytes) : a85decode (a85Body cs x) = .ok
 
 example : a85decode (a85Body [1, 5] [0, 0, 0, 0, 0xff, 0xfe]) = .ok [0, 0, 0, 0, 0xff, 0xfe] := by decide
 
+/-! ## LZW -/
+
+/-- LZW (early change, as `LZWDecoder` implements it): for EVERY byte string and EVERY placement
+of additional Clear codes (`clr n` = a Clear after the n-th data code; a Clear is forced before a
+13-bit code would be needed), the decoder returns the data.  Covers the code-width changes at
+table sizes 511/1023/2047, table resets, the KwKwK case (a code for the entry the decoder is
+about to create), the EOD code and the zero padding of the last byte. -/
+theorem lzw_rt (clr : Nat → Bool) (x : Bytes) : lzwdecode (lzwEnc clr x) = .ok x :=
+  lzwdecode_lzwEnc clr x
+
+/-- Non-vacuity: `aaaaaaa` exercises KwKwK twice; a Clear is inserted after the 2nd data code. -/
+example : lzwdecode (lzwEnc (fun n => n == 2) [97, 97, 97, 97, 97, 97, 97]) = .ok [97, 97, 97, 97, 97, 97, 97] := by
+  decide
+/-- The encoder is the usual one: the example of ISO 32000-1 7.4.4.2 (`-----A---B`). -/
+example : lzwEnc (fun _ => false) [45, 45, 45, 45, 45, 65, 45, 45, 45, 66]
+    = [0x80, 0x0B, 0x60, 0x50, 0x22, 0x0C, 0x0C, 0x85, 0x01] := by decide
+
 /-! ## Filter chains
 
 A chain is a list of stages; a stage is a pipeline entry `(filter name, DecodeParms)` together
@@ -250,6 +268,16 @@ def stageRl (inflate : Bytes → Bytes) (name : Bytes) (hn : name ∈ LITERALS_R
     rintro y z ⟨segs, eod, hv, hp, rfl⟩
     rw [decodeStep_rl inflate name pr _ hn, rl_rt segs eod hv]
     exact predictor_rt pr y _ hp
+
+/-- LZW stage (either name): any Clear placement. -/
+def stageLzw (inflate : Bytes → Bytes) (name : Bytes) (hn : name ∈ LITERALS_LZW_DECODE) (pr : Option Parms) :
+    Stage inflate where
+  filt := (name, pr)
+  Encodes y z := ∃ u clr, PredEncodes pr y u ∧ z = lzwEnc clr u
+  rt := by
+    rintro y z ⟨u, clr, hp, rfl⟩
+    rw [decodeStep_lzw inflate name pr _ hn, lzw_rt]
+    exact predictor_rt pr y u hp
 
 /-- Flate stage (either name): zlib is an abstract pair with `inflate (deflate u) = u`. -/
 def stageFl (inflate deflate : Bytes → Bytes) (hz : ∀ u, inflate (deflate u) = u) (name : Bytes)
